@@ -80,10 +80,12 @@ let () =
   read_lines stdin (fun line ->
     match split_on '\t' line with
     | id :: "Q" :: ms :: _ ->
+      (* the learners' match indexes (third field) never enter the computation *)
       let l = List.map n_of_dec_big (String.split_on_char ',' ms) in
       let q = quorum (n_of_int (List.length l)) in
-      let mci = (match commit_index l with Some v -> d v | None -> "panic") in
-      Printf.printf "%s\tq=%s mci=%s\n" id (d q) mci
+      (match commit_index l with
+       | Some v -> Printf.printf "%s\tq=%s commit=%s\n" id (d q) (d v)
+       | None -> Printf.printf "%s\tpanic\n" id)
     | id :: op :: args ->
       if String.length id > 0 && id.[0] = 'L' then begin
         (* a new case starts with op index 0 *)
